@@ -735,6 +735,16 @@ func (w *h2World) shutdown() {
 
 func sortStrings(s []string) { sort.Strings(s) }
 
+// sortedClients returns the clients in key order (deterministic iteration)
+func (w *h2World) sortedClients() []*h2Client {
+	cs := make([]*h2Client, 0, len(w.clients))
+	for _, c := range w.clients {
+		cs = append(cs, c)
+	}
+	sortClients(cs)
+	return cs
+}
+
 func sortClients(cs []*h2Client) {
 	sort.Slice(cs, func(i, j int) bool { return cs[i].key() < cs[j].key() })
 }
